@@ -16,6 +16,9 @@ func init() {
 }
 
 func runC05(c *Ctx) {
+	defer checkStringInSlice(c, "C05.R6")
+	defer checkGrantTypesDefault(c, "C05.R6")
+	defer checkConfigGetters(c, "C05.R5", "GetRefreshTokenScopes", "GetScopeStrategy", "GetAudienceStrategy")
 	const role = "refresh-validate"
 	fns := c.refreshValidateFns()
 	if len(fns) == 0 {
